@@ -334,3 +334,7 @@ func VerifHarness_C10_O7() {
 	}
 	verifReach("end")
 }
+
+// C01/O9 — the moment a validator-set change becomes effective is the same on
+// every node: exactly round-received + 6 (= C10/O1).
+func VerifHarness_C01_O9() { VerifHarness_C10_O1() }
